@@ -99,6 +99,21 @@ func LoadProgram(patterns []string) (*Program, error) {
 		Env:        append(os.Environ(), "GOFLAGS=-mod=mod", "GOPROXY=off", "GOSUMDB=off", "GOTOOLCHAIN=local"),
 		Tests:      false,
 	}
+	if ov := os.Getenv("GVC_OVERLAY"); ov != "" {
+		// mutation sweep: a JSON object {absolute file name: file holding its replacement text}
+		var m map[string]string
+		if err := loadJSON(ov, &m); err != nil {
+			return nil, fmt.Errorf("GVC_OVERLAY: %v", err)
+		}
+		cfg.Overlay = map[string][]byte{}
+		for f, r := range m {
+			b, err := os.ReadFile(r)
+			if err != nil {
+				return nil, fmt.Errorf("GVC_OVERLAY: %v", err)
+			}
+			cfg.Overlay[f] = b
+		}
+	}
 	pkgs, err := packages.Load(cfg, patterns...)
 	if err != nil {
 		return nil, err
